@@ -225,11 +225,35 @@ func main() {
 		}
 	}
 	strats := strategies()
-	r.SetRule(fmt.Sprintf("rings of 1..%d nodes, each owning 1 or 2 tokens, every ownership sequence around the ring (nodes numbered by first appearance; quick adds the 4-node rings with one token per node: %d sequences); "+
+	// added in round 4 (both tiers): rack repeats with vnodes and a replication factor above racks + 1.
+	// 4 nodes in ONE datacenter, every assignment of the nodes to the racks r1, r2 (every uneven split 3+1 / 1+3 in
+	// every position, the even ones and the one-rack ones too), one node owning two tokens and the others one, in
+	// every ownership sequence, NetworkTopologyStrategy{dc1: 1..5}. The main space stops at rf 3 (and quick at 4-node
+	// rings with one token per node), which never walks past the second token of a node set aside for its rack.
+	var vnArrs []arrangement
+	for _, a := range arrangements(4) {
+		if a.n == 4 && len(a.owners) == 5 {
+			vnArrs = append(vnArrs, a)
+		}
+	}
+	var vnStrats []strategy
+	for rf := 1; rf <= 5; rf++ {
+		if r.Thorough() && rf <= 3 {
+			continue // thorough: these settings on these rings are part of the main space
+		}
+		var v interface{} = strconv.Itoa(rf)
+		if rf%2 == 0 {
+			v = rf
+		}
+		vnStrats = append(vnStrats, strategy{name: fmt.Sprintf("NTS{dc1:%d}", rf), dcs: map[string]int{"dc1": rf}, ks: &gocql.KeyspaceMetadata{
+			Name: "ks", StrategyClass: "org.apache.cassandra.locator.NetworkTopologyStrategy",
+			StrategyOptions: map[string]interface{}{"class": "org.apache.cassandra.locator.NetworkTopologyStrategy", "dc1": v}}})
+	}
+	r.SetRule(fmt.Sprintf("rack repeats with vnodes: 4 nodes in one datacenter, every assignment of the nodes to 2 racks (all uneven splits), token counts (2,1,1,1) in every ownership sequence (%d), NetworkTopologyStrategy{dc1: rf} for rf 1..5 (thorough: 4..5 here, 1..3 in the main space), same partitioners, lookups and oracle as the main space. Main space: ", len(vnArrs))+fmt.Sprintf(fmt.Sprintf("rings of 1..%d nodes, each owning 1 or 2 tokens, every ownership sequence around the ring (nodes numbered by first appearance; quick adds the 4-node rings with one token per node: %d sequences); "+
 		"every labelling of the nodes over {dc1,dc2}x{r1,r2}; SimpleStrategy rf 0..4 and NetworkTopologyStrategy with dc1, dc2 each absent/0/1/2/3 and a DC the ring lacks absent/1/3 (%d settings); "+
 		"Murmur3, Random and ByteOrdered rings; lookup tokens equal to every ring token, between every neighbouring pair, below the smallest and above the largest. "+
 		"One evaluation = one replica map built or one lookup in it; a case (ring, labelling, setting) is non-trivial when Cassandra places at least one replica for some token. "+
-		seqRule(r.Thorough())+" There one evaluation = one event applied or one lookup after it.", maxNodes, len(arrs), len(strats)))
+		seqRule(r.Thorough())+" There one evaluation = one event applied or one lookup after it.", maxNodes, len(arrs), len(strats))))
 	r.Assume("Cassandra's placement is as ported in /verif/engine/refcass (2.x/3.0 NetworkTopologyStrategy cross-checked against the 3.11/4.x rewrite on 633k enumerated cases; SimpleStrategy)",
 		"replica lists are compared as sets; order is only constrained by 'range owner first whenever its datacenter holds replicas' (SimpleStrategy: whenever rf > 0)",
 		"ByteOrdered ring tokens are lower-case hex strings whose string order equals Cassandra's byte order; how gocql relates such strings to key bytes is not part of this property",
@@ -258,6 +282,20 @@ func main() {
 		runItem(items[first].a, items[first].label, strats)
 		first++
 	}
+	// the rack-repeat family with vnodes (small: in order, so its example is the same on every run)
+	vnItems := 0
+	for _, a := range vnArrs {
+		for rl := 0; rl < 16; rl++ { // bit i of rl = rack of node i; all nodes in dc1
+			label, m := 0, 1
+			for i := 0; i < 4; i++ {
+				label += ((rl >> uint(i)) & 1) * m // locations[0] = dc1/r1, locations[1] = dc1/r2
+				m *= 4
+			}
+			runItem(a, label, vnStrats)
+			vnItems++
+		}
+	}
+	r.Extra("rack_repeat_vnode_family", map[string]int{"ownership_sequences": len(vnArrs), "labelled_rings": vnItems, "settings": len(vnStrats)})
 	var next int64 = int64(first) - 1
 	var wg sync.WaitGroup
 	for w := 0; w < runtime.NumCPU(); w++ {
